@@ -897,3 +897,169 @@ Lemma bundle_example :
   | _ => false
   end = true.
 Proof. vm_compute. reflexivity. Qed.
+
+(* ================= inference is a function of the parameter RECORD, component by component =================
+   A name rests on componentwise equality with one table row: each component of the parameters,
+   taken separately with its own length, equals the row's.  An identity of a parameter set that
+   joins the components without their lengths cannot express this (refutation below). *)
+
+Definition base_eqb (c : curve_row) (base : bytes) : bool :=
+  match base with
+  | [] => false
+  | b0 :: rest =>
+      if b0 =? 4 then bytes_eqb (c_gx c ++ c_gy c) rest
+      else ((b0 =? 2) || (b0 =? 3)) && negb (Nat.eqb (length (c_gy c)) 0) &&
+           (b0 =? 2 + last_byte (c_gy c) mod 2) && bytes_eqb (c_gx c) rest
+  end.
+
+(* decidable componentwise equality of the parameters with a table row *)
+Definition components_eqb (c : curve_row) (p : ec_params) : bool :=
+  oid_eqb (p_field p) oid_prime_field &&
+  match p_prime p with Some z => (z =? key_value c)%Z | None => false end &&
+  bytes_eqb (c_a c) (p_a p) && bytes_eqb (c_b c) (p_b p) &&
+  (bytes_eqb (c_seed c) (p_seed p) || (p_seed_bits p =? 0)%Z) &&
+  (c_order c =? p_order p)%Z && base_eqb c (p_base p).
+
+Lemma key_of_row : forall c, In c table -> c_key c = dec_of_Z (key_value c).
+Proof.
+  intros c Hin. pose proof keys_canonical_now as T. rewrite forallb_forall in T.
+  apply bytes_eqb_eq. exact (T c Hin).
+Qed.
+
+Lemma infer_row_componentwise : forall p c, infer_row p = Ok (Some c) ->
+  In c table /\ components_eqb c p = true.
+Proof.
+  intros p c H. unfold infer_row in H.
+  destruct (infer_row_exact table has_f5 p c rows_ok_now H) as [Hin [k [Hn _]]].
+  split; [exact Hin|].
+  unfold infer_row_gen in H.
+  destruct (oid_eqb (p_field p) oid_prime_field) eqn:Ef; [|discriminate].
+  destruct (p_prime p) as [z|] eqn:Ep; [|discriminate].
+  destruct (lookup table (dec_of_Z z)) as [c0|] eqn:El; [|discriminate].
+  unfold bind in H. destruct (params_match_gen has_f5 has_f6 c0 p) as [m| |] eqn:M; try discriminate.
+  destruct m; [|discriminate]. inversion H; subst c0. clear H.
+  apply lookup_some in El. destruct El as [_ Hkey].
+  rewrite (key_of_row c Hin) in Hkey. apply dec_of_Z_inj in Hkey.
+  change has_f6 with true in M. apply params_match_true in M.
+  destruct M as [Ma [Mb [Mo [Ms Mbase]]]].
+  unfold components_eqb. rewrite Ef, Ep. rewrite <- Hkey, Z.eqb_refl.
+  rewrite Ma, Mb, Mo, !bytes_eqb_refl, Z.eqb_refl. cbn [andb].
+  assert (Hs : bytes_eqb (c_seed c) (p_seed p) || (p_seed_bits p =? 0)%Z = true).
+  { destruct Ms as [Ms|Ms]; [rewrite Ms, bytes_eqb_refl; reflexivity |
+      rewrite Ms; cbn; apply orb_true_r]. }
+  rewrite Hs. cbn [andb].
+  destruct Mbase as [Hb|[[b0 [Hb [H23 [Hne Hpar]]]]|[Hb [Hx _]]]].
+  - rewrite Hb. cbn [base_eqb N.eqb Pos.eqb]. apply bytes_eqb_refl.
+  - rewrite Hb. unfold base_eqb.
+    assert (E4 : b0 =? 4 = false) by (destruct H23; subst b0; reflexivity).
+    rewrite E4. rewrite <- Hpar, N.eqb_refl, bytes_eqb_refl.
+    assert (E23 : (b0 =? 2) || (b0 =? 3) = true) by (destruct H23; subst b0; reflexivity).
+    rewrite E23. cbn [andb]. rewrite andb_true_r.
+    destruct (c_gy c); [contradiction | reflexivity].
+  - exfalso. pose proof rows_ok_now as T. rewrite forallb_forall in T.
+    destruct (row_ok_spec c (T c Hin)) as [k' [Hn' [Hrow _]]].
+    destruct Hrow as [_ [_ [_ [_ [_ [Rlx _]]]]]].
+    pose proof (nist_flen _ _ Hn'). rewrite Hx in Rlx. cbn in Rlx. lia.
+Qed.
+
+(* ... and conversely: a row of the table whose components the parameters equal is the row inferred *)
+Lemma componentwise_infer_row : forall p c, In c table -> components_eqb c p = true ->
+  infer_row p = Ok (Some c).
+Proof.
+  intros p c Hin H. unfold components_eqb in H.
+  repeat (apply andb_prop in H; let H2 := fresh "C" in destruct H as [H H2]).
+  destruct (p_prime p) as [z|] eqn:Ep; [|discriminate].
+  apply Z.eqb_eq in C4. apply bytes_eqb_eq in C3. apply bytes_eqb_eq in C2.
+  unfold infer_row, infer_row_gen. rewrite H, Ep.
+  rewrite (lookup_unique table (dec_of_Z z) c keys_distinct_now Hin)
+    by (rewrite (key_of_row c Hin), C4; reflexivity).
+  unfold bind, params_match_gen. change has_f5 with true. change has_f6 with true.
+  unfold base_eqb in C. destruct (p_base p) as [|b0 rest] eqn:B; [discriminate|].
+  rewrite C3, C2, !bytes_eqb_refl. cbn [andb].
+  rewrite C1, C0. cbn [andb].
+  destruct (b0 =? 4) eqn:E4.
+  - apply N.eqb_eq in E4. subst b0. cbn [N.eqb Pos.eqb orb]. rewrite C. reflexivity.
+  - apply andb_prop in C. destruct C as [C Cx]. apply andb_prop in C. destruct C as [C Cs].
+    apply andb_prop in C. destruct C as [C23 Cl].
+    assert (E0 : b0 =? 0 = false).
+    { apply orb_prop in C23. destruct C23 as [E|E]; apply N.eqb_eq in E; subst b0; reflexivity. }
+    rewrite E0, C23, Cl, Cs, Cx. reflexivity.
+Qed.
+
+(* the parameters the inference looks at, compared component by component (decidable) *)
+Definition optz_eqb (a b : option Z) : bool :=
+  match a, b with Some x, Some y => (x =? y)%Z | None, None => true | _, _ => false end.
+
+Definition params_eqb (p q : ec_params) : bool :=
+  oid_eqb (p_field p) (p_field q) && optz_eqb (p_prime p) (p_prime q) &&
+  bytes_eqb (p_a p) (p_a q) && bytes_eqb (p_b p) (p_b q) &&
+  bytes_eqb (p_seed p) (p_seed q) && (p_seed_bits p =? p_seed_bits q)%Z &&
+  bytes_eqb (p_base p) (p_base q) && (p_order p =? p_order q)%Z.
+
+Lemma params_eqb_infer : forall p q, params_eqb p q = true ->
+  infer_row p = infer_row q /\ infer p = infer q /\ curve_name p = curve_name q.
+Proof.
+  intros p q H. unfold params_eqb in H.
+  repeat (apply andb_prop in H; let H2 := fresh "C" in destruct H as [H H2]).
+  apply oid_eqb_eq in H. apply Z.eqb_eq in C, C1.
+  apply bytes_eqb_eq in C0, C2, C3, C4.
+  assert (Cp : p_prime p = p_prime q).
+  { unfold optz_eqb in C5. destruct (p_prime p), (p_prime q); try discriminate; [|reflexivity].
+    apply Z.eqb_eq in C5. congruence. }
+  assert (E : infer_row p = infer_row q).
+  { unfold infer_row, infer_row_gen, params_match_gen. rewrite H, Cp, C4, C3, C2, C1, C0, C. reflexivity. }
+  split; [exact E|]. split.
+  - unfold infer. fold (infer_row p). fold (infer_row q). rewrite E. reflexivity.
+  - unfold curve_name, curve_name_gen. fold (infer_row p). fold (infer_row q). rewrite E. reflexivity.
+Qed.
+
+(* ----- refutation of a concatenation-keyed matcher -----
+   A matcher that remembers successful matches under the components written one after another
+   without their lengths (here: the prime in decimal, a, b, seed, base point, the order in decimal;
+   any rendering of the two integers will do) answers from its memory for a set whose components
+   are split differently. *)
+Definition concat_key (p : ec_params) : bytes :=
+  match p_prime p with Some z => dec_of_Z z | None => [] end ++
+  p_a p ++ p_b p ++ p_seed p ++ p_base p ++ dec_of_Z (p_order p).
+
+Fixpoint memo_get (k : bytes) (m : list (bytes * bytes)) : option bytes :=
+  match m with
+  | [] => None
+  | (k', v) :: r => if bytes_eqb k' k then Some v else memo_get k r
+  end.
+
+Definition infer_memo (m : list (bytes * bytes)) (p : ec_params) : result (option bytes) * list (bytes * bytes) :=
+  if oid_eqb (p_field p) oid_prime_field then
+    match memo_get (concat_key p) m with
+    | Some nm => (Ok (Some nm), m)
+    | None =>
+        match infer p with
+        | Ok (Some nm) => (Ok (Some nm), (concat_key p, nm) :: m)
+        | r => (r, m)
+        end
+    end
+  else (infer p, m).
+
+Fixpoint infer_memo_seq (m : list (bytes * bytes)) (ps : list ec_params) : list (result (option bytes)) :=
+  match ps with
+  | [] => []
+  | p :: r => let (o, m') := infer_memo m p in o :: infer_memo_seq m' r
+  end.
+
+(* P-256, the last octet of a moved to the front of b: the same octets in a row, other components *)
+Definition witness_shift : ec_params :=
+  let g := genuine_params nist_p256 false true 1 in
+  mk_ecp (p_field g) (p_prime g) (p_char2 g) (removelast (p_a g)) (last (p_a g) 0 :: p_b g)
+         (p_seed g) (p_seed_bits g) (p_base g) (p_order g) (p_cofactor g).
+
+Lemma concat_key_refuted :
+  let g := genuine_params nist_p256 false true 1 in
+  let d := witness_shift in
+  concat_key g = concat_key d /\ params_eqb g d = false /\
+  infer g = Ok (Some (bs "P-256")) /\ infer d = Ok None /\ ~ exact nist_p256 d /\
+  infer_memo_seq [] [g; d] = [Ok (Some (bs "P-256")); Ok (Some (bs "P-256"))] /\
+  infer_memo_seq [] [d; g] = [Ok None; Ok (Some (bs "P-256"))].
+Proof.
+  cbv zeta. repeat split; try (vm_compute; reflexivity).
+  intros [_ [_ [Hl _]]]. vm_compute in Hl. discriminate.
+Qed.
